@@ -95,6 +95,10 @@ pub fn run_reader(file: &[u8], cuts: &[usize], opts: &[bool; 5], transform: png:
                 }
             }
         }
+        match reader.finish() {
+            Ok(()) => out.push_str("fin:ok "),
+            Err(e) => out.push_str(&format!("fin:err({}) ", err_class(&e))),
+        }
         out.push_str(&format!("end[{}]", info_canon(reader.info())));
         out
     }) {
